@@ -393,3 +393,138 @@ def build_T1b(tree):
 
 
 TARGETS['T1b'] = {'file': 'image.py', 'build': build_T1b}
+
+
+def build_T11d(tree):
+    """io._build_bot loop and the fragment walk of ImageFileReader.read_frame_raw, expression by expression: the start
+    markers, the refusal of item lengths, the offset recorded per item, how far the loop moves to the next item, the
+    choice between frame and fragment offsets; `stop_at`, the advance `n += …`, the order break-test / append.  The
+    hand-written loops of Model/Offsets.lean are proved to use exactly these (Proofs/OffsetsTie.lean)."""
+    texts, shas = [], []
+    # ---- module constants
+    consts = {}
+    for st in tree.body:
+        if isinstance(st, ast.Assign) and len(st.targets) == 1 and isinstance(st.targets[0], ast.Name):
+            consts[st.targets[0].id] = st.value
+    sm = consts.get('_START_MARKERS')
+    if not isinstance(sm, ast.Set):
+        raise Unsupported('_START_MARKERS is no longer a set display')
+    rows = []
+    for e in sm.elts:
+        v = consts.get(e.id) if isinstance(e, ast.Name) else e
+        if not (isinstance(v, ast.Constant) and isinstance(v.value, bytes)):
+            raise Unsupported('_START_MARKERS element is not a bytes constant')
+        rows.append(list(v.value))
+    rows.sort()
+    texts.append('/-- `io._START_MARKERS` (sorted) -/\ndef startMarkers : List (List Nat) :=\n  ['
+                 + ', '.join('[' + ', '.join(str(b) for b in r) + ']' for r in rows) + ']')
+    shas.append(hashlib.sha256(repr(rows).encode()).hexdigest())
+    # ---- _build_bot
+    fn = find_func(tree, '_build_bot')
+    loops = [n for n in fn.body if isinstance(n, ast.While)]
+    if len(loops) != 1 or ast.unparse(loops[0].test) != 'True':
+        raise Unsupported('_build_bot: expected exactly one `while True` loop')
+    body = loops[0].body
+    src = [ast.unparse(s) for s in body]
+
+    def stmt(pred, what, seq=body):
+        hits = [s for s in seq if pred(s)]
+        if len(hits) != 1:
+            raise Unsupported(f'_build_bot: expected exactly one {what}, found {len(hits)}')
+        return hits[0]
+    # reads in the loop, in order: position, tag, length, two marker bytes, relative seek
+    reads = [s for s in src if 'fp.' in s and not s.startswith('if ')]
+    want_reads = ['frame_position = fp.tell()', 'tag = TupleTag(fp.read_tag())', 'length = fp.read_UL()',
+                  'first_two_bytes = fp.read(2)']
+    if reads[:4] != want_reads or len(reads) != 5:
+        raise Unsupported(f'_build_bot: the sequence of reads in the loop changed: {reads}')
+    seek = stmt(lambda s: isinstance(s, ast.Expr) and isinstance(s.value, ast.Call) and ast.unparse(s.value.func) == 'fp.seek',
+                'relative seek')
+    if len(seek.value.args) != 2 or ast.unparse(seek.value.args[1]) != '1' or body[-1] is not seek:
+        raise Unsupported('_build_bot: the loop no longer ends in fp.seek(<n>, 1)')
+    lencheck = stmt(lambda s: isinstance(s, ast.If) and 'length' in ast.unparse(s.test) and 'tag' not in ast.unparse(s.test), 'length test')
+
+    class DropSeek(ast.NodeTransformer):
+        def visit_Expr(self, node):
+            return None if ast.unparse(node).startswith('fp.seek(initial_position') else node
+    lc = DropSeek().visit(ast.parse(ast.unparse(lencheck)).body[0])
+    blk = [lc, ast.parse('return 0').body[0]]
+    for s in blk:
+        ast.fix_missing_locations(s)
+    texts.append(translate_block(blk, 'botLengthCheck', [('length', 'int')], {},
+                                 doc='`_build_bot`: which item lengths are refused (OSError), 0 otherwise'))
+    cur = stmt(lambda s: isinstance(s, ast.Assign) and ast.unparse(s.targets[0]) == 'current_offset', 'assignment of current_offset')
+    texts.append(translate_block([ast.fix_missing_locations(ast.Return(value=cur.value))], 'botOffset',
+                                 [('frame_position', 'int'), ('initial_position', 'int')], {},
+                                 doc='`_build_bot`: the offset recorded for the item that starts at `frame_position`'))
+    # position of the next item: 4 (tag) + 4 (UL length) + 2 (marker bytes read) + the relative seek
+    nxt = ast.parse('return frame_position + 4 + 4 + 2 + (' + ast.unparse(seek.value.args[0]) + ')').body[0]
+    texts.append(translate_block([nxt], 'botNextPosition', [('frame_position', 'int'), ('length', 'int')], {},
+                                 doc='`_build_bot`: where the next iteration reads its tag (read_tag = 4 bytes, read_UL = 4 bytes, '
+                                     'read(2), then `fp.seek(…, 1)`)'))
+    app = [s for s in body if 'append' in ast.unparse(s)]
+    if [ast.unparse(s) for s in app] != ['fragment_offset_values.append(current_offset)',
+                                         'if first_two_bytes in _START_MARKERS:\n    frame_offset_values.append(current_offset)']:
+        raise Unsupported('_build_bot: what is appended to the two offset lists changed')
+    tail = fn.body[fn.body.index(loops[0]) + 1:]
+    choice = [s for s in tail if isinstance(s, ast.If)]
+    if len(choice) != 1:
+        raise Unsupported('_build_bot: choice between frame and fragment offsets not found')
+    ctext = ast.unparse(choice[0])
+    for a, b in (('len(frame_offset_values)', 'n_frame_offsets'), ('len(fragment_offset_values)', 'n_fragment_offsets'),
+                 ('basic_offset_table = frame_offset_values', 'return 0'), ('basic_offset_table = fragment_offset_values', 'return 1')):
+        if a not in ctext:
+            raise Unsupported(f'_build_bot: `{a}` no longer part of the final choice')
+        ctext = ctext.replace(a, b)
+    texts.append(translate_block(ast.parse(ctext).body, 'botChoice',
+                                 [('n_frame_offsets', 'int'), ('n_fragment_offsets', 'int'), ('number_of_frames', 'int')], {},
+                                 doc='`_build_bot`: 0 = the marker-identified frame offsets, 1 = all fragment offsets, ValueError otherwise'))
+    shas.append(span_sha(body + tail))
+    # ---- read_frame_raw, encapsulated branch
+    fn = find_func(tree, 'ImageFileReader.read_frame_raw')
+    iff = find_if(fn, 'is_encapsulated')
+    enc = iff.body
+    tr = [s for s in enc if isinstance(s, ast.Try)]
+    if len(tr) != 1 or len(tr[0].body) != 1 or len(tr[0].handlers) != 1 or ast.unparse(tr[0].handlers[0].type) != 'IndexError':
+        raise Unsupported('read_frame_raw: try/except IndexError around stop_at not found')
+    a1, a2 = tr[0].body[0], tr[0].handlers[0].body[-1]
+    if not (isinstance(a1, ast.Assign) and ast.unparse(a1.targets[0]) == 'stop_at' and isinstance(a1.value, ast.BinOp)
+            and isinstance(a1.value.left, ast.Subscript) and ast.unparse(a1.value.left.value) == 'self._offset_table'):
+        raise Unsupported('read_frame_raw: stop_at is no longer self._offset_table[…] - …')
+    if not (isinstance(a2, ast.Assign) and ast.unparse(a2.targets[0]) == 'stop_at'):
+        raise Unsupported('read_frame_raw: stop_at of the last frame not found')
+    texts.append(translate_block([ast.fix_missing_locations(ast.Return(value=a1.value.left.slice))], 'readNextEntry', [('index', 'int')], {},
+                                 doc='`read_frame_raw`: which table entry bounds frame `index`'))
+    e = ast.parse('return next_offset ' + {ast.Sub: '-', ast.Add: '+'}.get(type(a1.value.op), '?') + ' (' + ast.unparse(a1.value.right) + ')').body[0]
+    texts.append(translate_block([e], 'readStopAt', [('next_offset', 'int'), ('frame_offset', 'int')], {},
+                                 doc='`read_frame_raw`: `stop_at` when there is a next table entry'))
+    texts.append(translate_block([ast.fix_missing_locations(ast.Return(value=a2.value))], 'readStopAtLast', [], {},
+                                 doc='`read_frame_raw`: `stop_at` for the last frame'))
+    wl = [s for s in enc if isinstance(s, ast.While)]
+    if len(wl) != 1 or ast.unparse(wl[0].test) != 'True':
+        raise Unsupported('read_frame_raw: fragment loop not found')
+    wsrc = [ast.unparse(s) for s in wl[0].body]
+    want = ['tag = TupleTag(self._fp.read_tag())',
+            'if n == stop_at or int(tag) == SequenceDelimiterTag:\n    break',
+            None,
+            'length = self._fp.read_UL()',
+            'fragments.append(self._fp.read(length))',
+            None]
+    if len(wsrc) != len(want) or any(w is not None and w != s for w, s in zip(want, wsrc)):
+        raise Unsupported(f'read_frame_raw: fragment loop changed shape: {wsrc}')
+    aug = wl[0].body[-1]
+    if not (isinstance(aug, ast.AugAssign) and ast.unparse(aug.target) == 'n'):
+        raise Unsupported('read_frame_raw: the loop no longer ends in an update of n')
+    e = ast.parse('return n ' + {ast.Add: '+', ast.Sub: '-'}.get(type(aug.op), '?') + ' (' + ast.unparse(aug.value) + ')').body[0]
+    texts.append(translate_block([e], 'readAdvance', [('n', 'int'), ('length', 'int')], {},
+                                 doc='`read_frame_raw`: the running byte count after a fragment of `length` bytes'))
+    n0 = [s for s in enc if isinstance(s, ast.Assign) and ast.unparse(s.targets[0]) == 'n']
+    if len(n0) != 1:
+        raise Unsupported('read_frame_raw: initial value of n not found')
+    texts.append(translate_block([ast.fix_missing_locations(ast.Return(value=n0[0].value))], 'readStart', [], {},
+                                 doc='`read_frame_raw`: the running byte count before the first fragment'))
+    shas.append(span_sha(enc))
+    return '\n\n'.join(texts), hashlib.sha256(''.join(shas).encode()).hexdigest()
+
+
+TARGETS['T11d'] = {'file': 'io.py', 'build': build_T11d}
